@@ -69,7 +69,7 @@ def sandwiches():
     ps = []
     i = 0
     for k in ("b8_part", "b16_part"):
-        for q in ("inner", "anon_s", "named_u", "u8", "d_char", "a_u16_3", "e8", "b8_whole", "b32_whole", "bf32_whole", "bi8"):
+        for q in ("inner", "anon_s", "named_u", "u8", "d_char", "a_u16_3", "e8", "b8_whole", "b32_whole", "bf32_whole", "bi8", "z_char", "uleb"):
             for al in (False, True):
                 ps.append(Program([k, q, k], "<>"[i % 2], al))
                 i += 1
